@@ -14,7 +14,6 @@ package lib
 // accepted / bound the bytes the covert received; no goroutine stays behind.
 
 import (
-	"bytes"
 	"encoding/json"
 	"fmt"
 	"net"
@@ -170,8 +169,8 @@ func c05RunProxy(env *c05ProxyEnv, c c05ProxyCase) (out c05Out) {
 	} else {
 		go c05CovertServe(env.ln, c, cs, reply, &res, covDone)
 	}
-	var logbuf bytes.Buffer
-	logger := log.New(&logbuf, "", 0)
+	logbuf := &vSyncBuf{} // the asynchronous closer may still log after Proxy returned
+	logger := log.New(logbuf, "", 0)
 	pdone := make(chan any, 1)
 	go func() {
 		var pan any
